@@ -569,6 +569,140 @@ func TestVerifC09(t *testing.T) {
 	r := vh.New("file-pairs-accounting")
 	defer r.Write()
 	fpRun(t, r, "C09")
+	c09Twins(t, r)
+}
+
+// c09Twins: every function of the family appears TWICE in the old file (as written, and with all
+// its parameters and locals renamed: same fingerprint, different instruction texts) and both
+// copies receive the same edit in the new file. The operation lists and matched-node count the
+// report gives for each pair must be the ones the zipper computes for THAT pair (the zipper's own
+// answer is validated against the instructions in pkg/diff) — whatever was reported for the twin
+// before it, in this report or in an earlier one of the same process.
+func c09Twins(t *testing.T, r *vh.Report) {
+	scratch := vh.Env("SCRATCH")
+	if scratch == "" {
+		scratch = t.TempDir()
+	}
+	type pair struct {
+		id         string
+		base, twin []progfam.Variant
+	}
+	var olds []string
+	var ps []pair
+	maxR := 0
+	for _, b := range progfam.Bases() {
+		if _, hasHelpers := progfam.PrivateHelpers[b.ID]; hasHelpers || b.NoNative || b.ManualOnly {
+			continue
+		}
+		twinSrc := ""
+		for _, v := range progfam.Cosmetic(b) {
+			if v.Op == "R1-rename-locals" && v.Site == -1 {
+				twinSrc = v.Src
+			}
+		}
+		if twinSrc == "" {
+			continue
+		}
+		tb := b
+		tb.Src = twinSrc
+		be, te := progfam.Edits(b), progfam.Edits(tb)
+		var pb, pt []progfam.Variant
+		for _, v := range be {
+			if v.Op == "M-manual" {
+				continue
+			}
+			for _, w := range te {
+				if w.Op == v.Op && w.Site == v.Site && progfam.Compiles(v.Src) == nil && progfam.Compiles(w.Src) == nil {
+					pb, pt = append(pb, v), append(pt, w)
+					break
+				}
+			}
+		}
+		if len(pb) == 0 {
+			continue
+		}
+		olds = append(olds, progfam.Rename(b.Src, "F", "F_"+b.ID), progfam.Rename(twinSrc, "F", "A_"+b.ID))
+		ps = append(ps, pair{b.ID, pb, pt})
+		if len(pb) > maxR {
+			maxR = len(pb)
+		}
+	}
+	if !vh.Thorough() && maxR > 4 {
+		maxR = 4
+	}
+	write := func(tag string, funcs []string) (string, string) {
+		d := filepath.Join(scratch, "twins", tag)
+		os.MkdirAll(d, 0o755)
+		src := progfam.RenderFile(funcs)
+		p := filepath.Join(d, "f.go")
+		os.WriteFile(p, []byte(src), 0o644)
+		return p, src
+	}
+	op, osrc := write("old", olds)
+	byShort := func(path, src string) (map[string]diff.FingerprintResult, error) {
+		res, err := diff.FingerprintSource(path, src, ir.DefaultLiteralPolicy)
+		if err != nil {
+			return nil, err
+		}
+		m := map[string]diff.FingerprintResult{}
+		for _, x := range res {
+			m[ShortFunctionName(x.FunctionName)] = x
+		}
+		return m, nil
+	}
+	for rd := 0; rd < maxR; rd++ {
+		if !vh.Mine(rd) || r.Expired() {
+			continue
+		}
+		var news []string
+		for _, pr := range ps {
+			if rd < len(pr.base) {
+				news = append(news, progfam.Rename(pr.base[rd].Src, "F", "F_"+pr.id), progfam.Rename(pr.twin[rd].Src, "F", "A_"+pr.id))
+			} else {
+				_ = pr
+			}
+		}
+		np, nsrc := write(fmt.Sprintf("new%d", rd), news)
+		out, err := ComputeDiff(RealFileSystem{}, op, np)
+		if err != nil {
+			r.Fail("twins round %d: ComputeDiff: %v", rd, err)
+			return
+		}
+		of, err1 := byShort(op, osrc)
+		nf, err2 := byShort(np, nsrc)
+		if err1 != nil || err2 != nil {
+			r.Fail("twins round %d: %v %v", rd, err1, err2)
+			return
+		}
+		for _, fd := range out.Functions {
+			o, ok1 := of[fd.Function]
+			n, ok2 := nf[fd.Function]
+			if !ok1 || !ok2 || fd.FingerprintMatch || o.GetSSAFunction() == nil || n.GetSSAFunction() == nil {
+				continue
+			}
+			z, zerr := diff.NewZipper(o.GetSSAFunction(), n.GetSSAFunction(), ir.DefaultLiteralPolicy)
+			if zerr != nil {
+				continue
+			}
+			art, aerr := z.ComputeDiff()
+			if aerr != nil {
+				continue
+			}
+			r.Eval()
+			r.Nontrivial(fmt.Sprintf("twins/%d/%s", rd, fd.Function))
+			r.Count("pairs_compared_with_the_zipper", 1)
+			canon := func(l []string) string {
+				c := append([]string(nil), l...)
+				sort.Strings(c)
+				return strings.Join(c, "\n")
+			}
+			if canon(fd.AddedOps) != canon(art.Added) || canon(fd.RemovedOps) != canon(art.Removed) || fd.MatchedNodes != art.MatchedNodes {
+				r.Violate(fmt.Sprintf("ops/twins/%s/round%d", fd.Function, rd),
+					fmt.Sprintf("%s (the old file also holds its twin with renamed parameters and locals; both received the same edit): the report lists\n  added   %q\n  removed %q\n  matched %d\nbut the unpaired instructions of THIS pair are\n  added   %q\n  removed %q\n  matched %d", fd.Function, fd.AddedOps, fd.RemovedOps, fd.MatchedNodes, art.Added, art.Removed, art.MatchedNodes),
+					map[string]interface{}{"function": fd.Function, "round": rd})
+			}
+		}
+	}
 }
 
 func TestVerifC19(t *testing.T) {
